@@ -15,7 +15,7 @@ OUTSIDE = 'macro combinations beyond the listed pairs, triples and the quadruple
 ASSUMPTIONS = ['libm transcendental functions are uninterpreted functions shared by both builds (same arguments => same result)',
                'documented preconditions of the operations (non-zero divisors, bitfield ranges) are assumed on both sides']
 
-INC = ['glm/glm.hpp', 'glm/ext.hpp']
+INC = ['glm/glm.hpp', 'glm/ext.hpp', 'glm/gtx/common.hpp', 'glm/gtx/compatibility.hpp', 'glm/gtc/ulp.hpp', 'glm/gtx/dual_quaternion.hpp']
 B = Unit('c15base', includes=INC)
 PRE = {}       # fname -> pre(ins)
 def add(name, ins, outs, body, pre=None):
@@ -132,6 +132,13 @@ add('pk_f11', [('float', 3)], [('uint32_t', 2)], 'o[0] = glm::packF2x11_1x10(ldv
 add('upk_f11', [('uint32_t', 1)], [('float', 3), ('float', 4)], 'stv(o, glm::unpackF2x11_1x10(a[0])); stv(o2, glm::unpackUnorm3x10_1x2(a[0]));')
 add('srgb_f', [('float', 3)], [('float', 3)] * 2, 'stv(o, glm::convertLinearToSRGB(ldv<3,float>(a))); stv(o2, glm::convertSRGBToLinear(ldv<3,float>(a)));')
 
+# operations with a language-level dependent body outside the core headers
+add('gtxcommon_f', [('float', 3), ('double', 1)], [('bool', 9), ('float', 2)], 'o[0] = glm::isdenormal(a[0]); o[1] = glm::isdenormal(b[0]); o[2] = glm::isfinite(a[0]); o[3] = glm::isfinite(b[0]); stv(o + 4, glm::isdenormal(ldv<3,float>(a))); stv(o + 7, glm::isfinite(ldv<2,float>(a))); o2[0] = glm::fmod(a[0], a[1]); o2[1] = glm::lerp(a[0], a[1], a[2]);')
+add('gtculp_f', [('float', 2), ('double', 2)], [('float', 2), ('double', 2), ('int32_t', 1), ('int64_t', 1)], 'o[0] = glm::next_float(a[0]); o[1] = glm::prev_float(a[0]); o2[0] = glm::next_float(b[0]); o2[1] = glm::prev_float(b[0]); o3[0] = glm::float_distance(a[0], a[1]); o4[0] = glm::float_distance(b[0], b[1]);',
+    lambda i: [z3.Not(is_nan(x)) for x in i[0] + i[1]] + [z3.Extract(31, 31, i[0][0]) == z3.Extract(31, 31, i[0][1]), z3.Extract(63, 63, i[1][0]) == z3.Extract(63, 63, i[1][1])])       # same-sign pairs: the distance always fits
+add('dualquat_f', [('float', 8), ('float', 8), ('float', 1)], [('float', 8)] * 3, 'glm::dualquat A(ldq<float>(a), ldq<float>(a + 4)), B(ldq<float>(b), ldq<float>(b + 4)); glm::dualquat C(A); stq(o, C.real); stq(o + 4, C.dual); C = B; stq(o2, C.real); stq(o2 + 4, C.dual); C = A * c[0] + B; stq(o3, C.real); stq(o3 + 4, C.dual);')
+add('qrel_f', [('float', 4), ('float', 4)], [('bool', 4)] * 4, 'stv(o, glm::equal(ldq<float>(a), ldq<float>(b))); stv(o2, glm::lessThan(ldq<float>(a), ldq<float>(b))); stv(o3, glm::greaterThanEqual(ldq<float>(a), ldq<float>(b))); stv(o4, glm::isnan(ldq<float>(a)));')
+
 # every matrix constructor has a second body for compilers without initializer lists (GLM_HAS_INITIALIZER_LISTS == 0 under GLM_FORCE_CXX98/03): all 81 shape conversions, the
 # scalar / column / component constructors, row()/column() access, transpose and outerProduct for all nine shapes (the wrappers of C02's float unit, re-used verbatim)
 import props.c02 as _C02
@@ -169,6 +176,7 @@ KNOWN = [
     (r'cxx98|cxx03|cxx_unknown', r'^(round|roundEven|vcommon\d|iround|uround)_', ['KF-C15-cxx98-round']),
     (r'cxx98|cxx03|cxx_unknown', r'^(pk_unorm|pk_f11)$', ['KF-C15-cxx98-round-pack']),
     (r'cxx98|cxx03|cxx_unknown', r'^(log2|exp2|asinh|acosh|atanh|fma3)_', ['KF-C15-cxx98-libm-fallbacks']),
+    (r'quat_wxyz', r'^qrel_', ['KF-C15-quat-relational-storage-order']),
 ]
 def known_for(cfg, fn):
     out = []
